@@ -93,7 +93,7 @@ def branchOf (cfg : Nat → LockCfg) (st : St) (won : List Nat) : Op → List St
     (if exps.any (fun x => now + ms + 1 = x) then ["ft-1ms-before-expiry"] else []) ++
     (if exps.any (fun x => now + ms = x + 1) then ["ft-1ms-after-expiry"] else []) ++
     (if exps.any (fun x => now + ms ≥ x) then ["ft-expires-a-lease"] else [])
-  | .acquire i =>
+  | .acquire i | .acquireS i _ =>
     match st.store.live (cfg i).key with
     | some e => if e.val = (cfg i).id then ["acquire-own-refresh"] else ["acquire-held-by-other"]
     | none =>
